@@ -48,7 +48,11 @@ def run(ctx):
                 'through 3..7 runs (run_once / run_once_ftp sequences and app.run / run_ftp loops), errors = base errors '
                 'times stabilizer and logical products so that syndromes repeat while verdicts change, the decoder hands '
                 'back the very same DecodeResult / arrays on a repeated syndrome; all owned objects audited after every '
-                'run; results re-read at the end of the history' % ctx.pick(5, 12))
+                'run; results re-read at the end of the history. Presentations: user codes with one stabilizer and / or one '
+                'logical pair under every 1d/2d presentation of those operators (documented return type), ideal / ftp, '
+                'run_once(_ftp) and app.run(_ftp), size-honouring scripted rng and the real numpy Generator; syndrome '
+                'shape = stabilizer presentation without its qubit axis, values and verdict from the model on the '
+                'normalised 2-d code' % ctx.pick(5, 12))
     ctx.props_obligations()
     lib = [FiveQubitCode(), SteaneCode(), PlanarCode(2, 2), PlanarCode(3, 2), ToricCode(2, 3), RotatedPlanarCode(3, 3)]
     if not ctx.quick:
@@ -280,6 +284,10 @@ def run(ctx):
     # ---- operation histories with collaborator-owned objects (table decoders, repeated syndromes) ----
     from harness.c01_extra import run_histories
     run_histories(ctx, lib, kern)
+
+    # ---- user codes whose single stabilizer / logical operator is presented as a vector (1d/2d combinations) ----
+    from harness.c01_pres import run_presentations
+    run_presentations(ctx, kern)
 
     out = ctx.model('c01', req)
     for (fn, impl), m, line in zip(exp, out, req):
